@@ -46,17 +46,21 @@ class ErrorHandling:
             error_pos = self.tokens[-1].end
         else:
             msgs.append('Syntax error, unknown input:')
-            error_len = max(self.bad_token.end - self.bad_token.index, 1)
+            error_len = self.bad_token.end - self.bad_token.index
             error_pos = self.bad_token.index
 
+        return msgs + self.show_position(text, error_pos, error_len)
+
+    @staticmethod
+    def show_position(text, error_pos, error_len):
+        msgs = []
         line_start = text.rfind('\n', 0, error_pos) + 1
         line_end = text.find('\n', error_pos)
         if line_end == -1:
             line_end = len(text)
 
-        if self.bad_token is not None:
-            # a token that spans lines is marked on its first line
-            error_len = max(min(self.bad_token.end, line_end) - error_pos, 1)
+        # a token that spans lines is marked on its first line
+        error_len = max(min(error_pos + error_len, line_end) - error_pos, 1)
 
         # add source code: the line with the error and up to two lines before it
         for line in text[:line_end].split('\n')[-3:]:
@@ -65,6 +69,23 @@ class ErrorHandling:
         # error position
         msgs.append('-' * (error_pos - line_start + 1) + '^' * error_len)
         return msgs
+
+    def action_location(self):
+        # where a grammar action rejected the statement: the first keyword or symbol of the rule it belongs to
+        # (LIMIT of a second LIMIT clause, AS of a dotted alias), else the first token of the rule
+        production = getattr(self.parser, 'production', None)
+        stack = getattr(self.parser, 'symstack', None)
+        if production is None or not production.len or not stack:
+            return []
+        symbols = stack[-production.len:]
+        marked = next((symbol for symbol in symbols if isinstance(symbol, Token)), symbols[0])
+        index = getattr(marked, 'index', None)
+        if index is None:
+            return []
+        for token in self.parser.used_tokens:
+            if token is not None and token.index == index:
+                return self.show_position(self.lexer.text, token.index, token.end - token.index)
+        return []
 
     def make_suggestion(self):
         if len(self.expected_tokens) == 0:
@@ -215,7 +236,14 @@ def parse_sql(sql, dialect='mindsdb'):
     lexer, parser = get_lexer_parser(dialect)
     parser.text = sql
     tokens = lexer.tokenize(sql)
-    ast = parser.parse(tokens)
+    try:
+        ast = parser.parse(tokens)
+    except ParsingException as e:
+        # rejected by a grammar action: show where (the parsers of the other dialects raise their syntax errors too)
+        location = ErrorHandling(lexer, parser).action_location() if dialect == 'mindsdb' else []
+        if not location:
+            raise
+        raise ParsingException('\n'.join([str(e)] + location)) from None
 
     if ast is None:
 
